@@ -85,10 +85,35 @@ let proj (st : state) : string =
     (String.concat "," (List.map (fun x -> string_of_int (int_of_n x)) st.queue)) tc ca ix
     (isome (merge_eligible st))
 
+(* everything the projection does not show: two candidates may only be merged when they agree on ALL of it
+   (Matches bits of uncertain streams, masks, the sets of the converter job, ... decide later steps) *)
 let hidden (st : state) : string =
-  match st.jtag with
-  | Some j -> Printf.sprintf "%d/%s" (int_of_n j.tj_name) (match j.tj_res with Some r -> string_of_int (int_of_n r) | None -> "-")
-  | None -> "-"
+  let i = int_of_n in
+  let nx = i st.next + 2 in
+  let ids = List.init (nx + 1) (fun x -> n_of_int x) in
+  let il l = String.concat "," (List.map (fun x -> string_of_int (i x)) l) in
+  let pl l = String.concat "," (List.map (fun (a, b) -> Printf.sprintf "%d=%d" (i a) (i b)) l) in
+  let fn f = il (List.map f ids) in
+  let tags = String.concat ";" (List.map (fun (nm, t) ->
+      Printf.sprintf "%d:%d:%d:%d:%s:%b" (i nm) (i t.t_def.d_id) (i t.t_m) (i t.t_u) (il t.t_conv) t.t_live) st.tags) in
+  let jt = match st.jtag with
+    | Some j -> Printf.sprintf "%d/%d/%d/%d/%s/%s/%s" (i j.tj_name) (i j.tj_def.d_id) (i j.tj_m) (i j.tj_u) (il j.tj_conv) (pl j.tj_snap)
+                  (match j.tj_res with Some r -> string_of_int (i r) | None -> "-")
+    | None -> "-" in
+  let jc = match st.jconv with
+    | Some j -> Printf.sprintf "%s/%s/%d/%b" (pl j.cj_sets) (fn j.cj_ver) (i j.cj_next) j.cj_done
+    | None -> "-" in
+  let jm = match st.jmerge with
+    | Some j -> Printf.sprintf "%d/%s/%s" (int_of_nat j.mj_off) (il j.mj_idx) (match j.mj_res with Some r -> il r | None -> "-")
+    | None -> "-" in
+  let ji = match st.jimp with
+    | Some j -> Printf.sprintf "%d/%s" (int_of_nat j.ij_files) (isome j.ij_resp)
+    | None -> "-" in
+  let cache = String.concat ";" (List.map (fun c ->
+      String.concat "," (List.map (fun x -> match st.cache c x with Some v -> string_of_int (i v) | None -> "-") ids)) st.convs) in
+  let views = String.concat ";" (List.map (fun (v, sv) -> Printf.sprintf "%d:%s" (i v) (fn sv)) st.views) in
+  Printf.sprintf "%s|%d,%d,%d,%d|%s|%s|%s|%s|%s|%s|%s|%d|%s" tags (i st.m_upd) (i st.m_rst) (i st.m_add) (i st.m_cupd)
+    jt jc jm ji cache (fn st.ver) (il st.idx) (int_of_nat st.unmerge) views
 
 let () =
   let ic = open_in Sys.argv.(1) in
